@@ -424,6 +424,17 @@ EXTRA_NAMES = ['n$p', 'n$q', 'c$a', 'c$x', 'r', 'c__a']
 CMETAS = ['id_a', 'id_b', 'c__a', 'c__b', 'c__a_', 'time', 'mid']
 
 
+PROFILES = {
+    'edit': [('addeq', 30), ('rmeq', 12), ('rmvar', 8), ('addvar', 7), ('addcmeta', 5), ('transfer', 4), ('triple', 4),
+             ('query', 10), ('q_def', 4), ('q_const', 3), ('q_eqsfor', 6), ('q_bycmeta', 2), ('q_byrdf', 2),
+             ('q_hascmeta', 1), ('q_cmeta', 1), ('q_annot', 1)],
+    'annot': [('addeq', 4), ('rmeq', 2), ('rmvar', 12), ('addvar', 14), ('addcmeta', 14), ('transfer', 12), ('triple', 12),
+              ('query', 2), ('q_bycmeta', 8), ('q_byrdf', 8), ('q_hascmeta', 4), ('q_cmeta', 4), ('q_annot', 4)],
+    'query': [('addeq', 14), ('rmeq', 3), ('rmvar', 1), ('addvar', 1), ('query', 20), ('q_def', 8), ('q_const', 10),
+              ('q_eqsfor', 43)],
+}
+
+
 def q(idc, val):
     return [2, idc, Fraction(val), 0]
 
@@ -521,46 +532,48 @@ def gen_case(seed, profile='edit'):
             ops.append(['addeq', e, True])
     nops = rng.randint(8, 25)
     queries = ['q_eqs', 'q_states', 'q_graph', 'q_ngraph', 'q_vars', 'q_free', 'q_derivs', 'q_derived']
+    weights = PROFILES[profile]
+    kinds = [k for k, w in weights for _ in range(w)]
     for _ in range(nops):
-        r = rng.random()
-        if r < 0.30:
+        k = rng.choice(kinds)
+        if k == 'addeq':
             ops.append(['addeq', rng.randrange(npool), rng.random() < 0.9])
-        elif r < 0.42:
+        elif k == 'rmeq':
             ops.append(['rmeq', rng.randrange(npool)])
-        elif r < 0.50:
+        elif k == 'rmvar':
             ops.append(['rmvar', rng.randrange(nvars)])
-        elif r < 0.57:
-            c = rng.choice(CMETAS) if rng.random() < 0.4 else None
+        elif k == 'addvar':
+            c = rng.choice(CMETAS) if rng.random() < (0.7 if profile == 'annot' else 0.4) else None
             ops.append(['addvar', rng.choice(EXTRA_NAMES + names), c, rng.choice([None, '1'])])
             nvars += 1      # may fail; indices beyond the created objects are rejected consistently (code 9)
-        elif r < 0.62:
+        elif k == 'addcmeta':
             ops.append(['addcmeta', rng.randrange(nvars)])
-        elif r < 0.66:
+        elif k == 'transfer':
             ops.append(['transfer', rng.randrange(nvars), rng.randrange(nvars)])
-        elif r < 0.70:
+        elif k == 'triple':
             ops.append(['triple', rng.choice(CMETAS + ['c__x', 'c__y']), rng.randrange(2), rng.randrange(3)])
-        elif r < 0.80:
+        elif k == 'query':
             ops.append([rng.choice(queries)])
-        elif r < 0.84:
+        elif k == 'q_def':
             ops.append(['q_def', rng.randrange(nvars)])
-        elif r < 0.87:
+        elif k == 'q_const':
             ops.append(['q_const', rng.randrange(nvars)])
-        elif r < 0.93:
+        elif k == 'q_eqsfor':
             nreq = rng.randint(1, 3)
             reqs = []
             for _ in range(nreq):
                 y = rng.randrange(nbase)
                 reqs.append(['v', y] if rng.random() < 0.7 else ['d', y, tvar])
             ops.append(['q_eqsfor', reqs, rng.random() < 0.7, rng.random() < 0.5])
-        elif r < 0.95:
-            ops.append(['q_bycmeta', rng.choice(CMETAS)])
-        elif r < 0.97:
+        elif k == 'q_bycmeta':
+            ops.append(['q_bycmeta', rng.choice(CMETAS + ['c__x', 'c__y'])])
+        elif k == 'q_byrdf':
             ops.append(['q_byrdf', rng.randrange(2), rng.randrange(3)])
-        elif r < 0.98:
+        elif k == 'q_hascmeta':
             ops.append(['q_hascmeta', rng.choice(CMETAS)])
-        elif r < 0.99:
+        elif k == 'q_cmeta':
             ops.append(['q_cmeta', rng.randrange(nvars)])
-        else:
+        elif k == 'q_annot':
             ops.append(['q_annot', rng.randrange(nvars)])
     # always end with the full set of queries
     for qn in queries:
